@@ -23,6 +23,8 @@ T1  `interp_sound`         interpreter accepts  ⇒  Script accepts, with a clea
       * `interp_accept_imp_script_accepts_partial`  composition with `Thm/Bridge.lean`: the flat
         opcode interpreter accepts the encoded script
       * `lockOk_of_lt`: the lock-value side condition `LockOk` holds for every `0 < n < 2^31`
+      * `interp_sound_any_verifier_partial`: the same for `iter_assume_sigs` / `iter_custom` — any
+        verifier, as long as Script runs with the same one (`Agree.withVerifier`)
 T2  `constraints_checked`  every reported constraint was checked successfully (ALL fragments) and
       holds in Script's environment (`constraints_hold_for_script`)
 Remaining finding, proved on the model as a counterexample to the unconditional statement:
@@ -133,6 +135,16 @@ theorem lockOk_of_lt (env : Env) {n : Nat} (h0 : 0 < n) (h : n < 2 ^ 31) : LockO
   · rw [lockVal_eq]; exact ok.2 (by omega)
   · show n < 2147483648; omega
 
+/-- `iter_assume_sigs` and `iter_custom`: T1 holds for ANY verifier `f`, as long as Script is run
+with the same `f` as its signature oracle (`iter_assume_sigs`: `f` = "has the shape of a
+signature"; `iter_custom`: the caller's closure).  The per-run judges `J interp-sound-m` /
+`C interp-m` instantiate exactly this. -/
+theorem interp_sound_any_verifier_partial {env : Env} {ke : KeyEnv} {ie : IEnv} {ctx : Ctx}
+    (f : Bytes → Bytes → Bool) (hl : NoLimits env) (ag : Agree env ie) (ms : Ms)
+    (hs : Sup { env with sigOk := f } ke ms) :
+    TopSound { env with sigOk := f } ke { ie with verifySig := f } ctx ms :=
+  interp_sound_partial (env := { env with sigOk := f }) ⟨hl.op, hl.st⟩ (ag.withVerifier f) ms hs
+
 /-! ### T2 -/
 
 /-- every constraint the interpreter reports was checked successfully by it — for ALL fragments
@@ -157,7 +169,7 @@ theorem constraints_checked {ke : KeyEnv} {ie : IEnv} (ms : Ms) (st : AStack) (c
 signature verifies for a well-formed key, the preimage hashes to the committed value and has 32
 bytes, `CHECKLOCKTIMEVERIFY` / `CHECKSEQUENCEVERIFY` on that value succeed -/
 def HoldsForScript (env : Env) : Constraint → Prop
-  | .pk pk sg => env.sigOk pk sg = true ∧ pubkeyOk env pk = true
+  | .pk pk sg => env.sigOk pk sg = true
   | .pkh hh pk sg => env.sigOk pk sg = true ∧ pubkeyOk env pk = true ∧ env.hash .hash160 pk = hh
   | .hashLock k hh pre => env.hash (hkOp k) pre = hh ∧ pre.length = 32
   | .after n => checkLockTime env n = true
@@ -171,8 +183,9 @@ theorem constraints_hold_for_script {env : Env} {ke : KeyEnv} {ie : IEnv} (ag : 
   cases c with
   | pk pk sg => exact ag.sig pk sg v
   | pkh hh pk sg =>
-    obtain ⟨v1, v2, _⟩ := v
-    exact ⟨(ag.sig pk sg v1).1, (ag.sig pk sg v1).2, by rw [← ag.h160]; exact v2⟩
+    obtain ⟨v1, v2⟩ := v
+    obtain ⟨v2, v3⟩ := v2
+    exact ⟨ag.sig pk sg v1, ag.key pk v3, by rw [← ag.h160]; exact v2⟩
   | hashLock k hh pre => exact ⟨by rw [← ag.hash]; exact v.1, v.2⟩
   | after n =>
     obtain ⟨v0, v1, v2⟩ := v
@@ -214,8 +227,7 @@ theorem interp_unsound_csv_tx_version_1 :
 /-- every other clause of the oracle agreement holds in that counterexample, so `version` is
 exactly what the interpreter fails to check -/
 theorem finding_agrees_otherwise :
-    (∀ pk sg, (ieOf 10 1).verifySig pk sg = true →
-        (envOf 10 1).sigOk pk sg = true ∧ pubkeyOk (envOf 10 1) pk = true)
+    (∀ pk sg, (ieOf 10 1).verifySig pk sg = true → (envOf 10 1).sigOk pk sg = true)
     ∧ (∀ pk, (ieOf 10 1).keyParse pk = true → pubkeyOk (envOf 10 1) pk = true)
     ∧ (ieOf 10 1).lockTime = (envOf 10 1).nLockTime
     ∧ (ieOf 10 1).sequence = (envOf 10 1).nSequence := by
@@ -271,7 +283,7 @@ theorem envX_agree : Agree envX ieX where
     simp [ieX] at h
     obtain ⟨h1, h2⟩ := h
     subst h1; subst h2
-    exact ⟨by decide, by decide⟩
+    decide
   key := by intro pk h; simp [ieX] at h
   h160 := fun _ => rfl
   hash := fun _ _ => rfl
